@@ -25,14 +25,14 @@ theorem C11_table_ok : TableOk tableLockOf := by
 
 variable {σ : Type}
 
-theorem CReach.base_reach {lockOf : ROp → Guard} {n : Nat} {r0 : σ} {s : CState σ} (h : CReach lockOf n r0 s) :
+theorem CReach.base_reach {lockOf : ROp → Guard} {M : (σ → σ) → Prop} {n : Nat} {r0 : σ} {s : CState σ} (h : CReach lockOf M n r0 s) :
     Reach n s.base := by
   induction h with
   | init => exact Reach.init
   | step _ hs ih =>
     cases hs with
     | lock b' hb => exact Reach.step ih hb
-    | mutate i op hm f hb => exact ih
+    | mutate i op hm f hf hb => exact ih
     | observe i op hm hb => exact ih
 
 /-- the invariant: a thread holding the *read* lock has seen the router unchanged since its request was granted,
@@ -43,8 +43,8 @@ def ReadStable (s : CState σ) : Prop :=
 /-- **C11, stability under the read lock**: for every number of threads and every interleaving, while a thread holds
     the read lock (a notify / exists / depth in progress) the router state equals the state at the instant its
     request was granted: no subscribe, unsubscribe or shrink takes effect during a delivery. -/
-theorem C11_stable_under_read (lockOf : ROp → Guard) (hok : TableOk lockOf) (n : Nat) (r0 : σ) (s : CState σ)
-    (h : CReach lockOf n r0 s) : ReadStable s := by
+theorem C11_stable_under_read (lockOf : ROp → Guard) (M : (σ → σ) → Prop) (hok : TableOk lockOf) (n : Nat) (r0 : σ) (s : CState σ)
+    (h : CReach lockOf M n r0 s) : ReadStable s := by
   induction h with
   | init =>
     intro i hi
@@ -72,7 +72,7 @@ theorem C11_stable_under_read (lockOf : ROp → Guard) (hok : TableOk lockOf) (n
           exact this rfl
         have hi' : b'.ths[i]? = some (Pc.holding Kind.read) := hi
         exact ih i (by rw [← hsame]; exact hi')
-    | mutate j op hm f hb =>
+    | mutate j op hm f hf hb =>
       intro i hi
       have hi' : s.base.ths[i]? = some (Pc.holding Kind.read) := hi
       -- the mutating thread holds the write lock, so nobody holds a read lock
@@ -103,16 +103,16 @@ theorem C11_stable_under_read (lockOf : ROp → Guard) (hok : TableOk lockOf) (n
 /-- **C11, a notify is atomic**: everything one reading operation has looked at (every level of the traversal, every
     subject it delivered to) is the router state of ONE instant — the one at which its lock request was granted,
     which lies between its call and its return. -/
-theorem C11_notify_atomic (lockOf : ROp → Guard) (hok : TableOk lockOf) (n : Nat) (r0 : σ) (s : CState σ)
-    (h : CReach lockOf n r0 s) (i : Nat) (hi : s.base.ths[i]? = some (.holding .read)) :
+theorem C11_notify_atomic (lockOf : ROp → Guard) (M : (σ → σ) → Prop) (hok : TableOk lockOf) (n : Nat) (r0 : σ) (s : CState σ)
+    (h : CReach lockOf M n r0 s) (i : Nat) (hi : s.base.ths[i]? = some (.holding .read)) :
     ∀ v ∈ s.obs i, v = s.snap i := by
-  obtain ⟨h1, h2⟩ := C11_stable_under_read lockOf hok n r0 s h i hi
+  obtain ⟨h1, h2⟩ := C11_stable_under_read lockOf M hok n r0 s h i hi
   intro v hv; rw [h1]; exact h2 v hv
 
 /-- **C11, mutations are exclusive**: when the body of subscribe / unsubscribe / shrink takes effect no other thread
     is inside any operation of the router (holds the resource in any mode). -/
-theorem C11_mutation_exclusive (lockOf : ROp → Guard) (hok : TableOk lockOf) (n : Nat) (r0 : σ) (s : CState σ)
-    (h : CReach lockOf n r0 s) (i : Nat) (op : ROp) (hm : op.mutates = true) (hb : bodyAllowed lockOf s.base i op)
+theorem C11_mutation_exclusive (lockOf : ROp → Guard) (M : (σ → σ) → Prop) (hok : TableOk lockOf) (n : Nat) (r0 : σ) (s : CState σ)
+    (h : CReach lockOf M n r0 s) (i : Nat) (op : ROp) (hm : op.mutates = true) (hb : bodyAllowed lockOf s.base i op)
     (j : Nat) (hij : i ≠ j) (k : Kind) : ¬ holds s.base j k := by
   have hw : lockOf op = .write := (hok op).2 hm
   have hi : holds s.base i .write := by
@@ -124,33 +124,34 @@ theorem C11_mutation_exclusive (lockOf : ROp → Guard) (hok : TableOk lockOf) (
 /-- **C11, after unsubscribe**: whenever the current router state satisfies `P` (e.g. "observer o is not subscribed",
     true from the moment the unsubscribe body took effect until a later re-subscription), every state seen by every
     delivery in progress satisfies `P` too: o is not invoked by any notify that is still running or starts later. -/
-theorem C11_after_unsubscribe (lockOf : ROp → Guard) (hok : TableOk lockOf) (n : Nat) (r0 : σ) (s : CState σ)
-    (h : CReach lockOf n r0 s) (P : σ → Prop) (hP : P s.cur) (i : Nat) (hi : s.base.ths[i]? = some (.holding .read)) :
+theorem C11_after_unsubscribe (lockOf : ROp → Guard) (M : (σ → σ) → Prop) (hok : TableOk lockOf) (n : Nat) (r0 : σ) (s : CState σ)
+    (h : CReach lockOf M n r0 s) (P : σ → Prop) (hP : P s.cur) (i : Nat) (hi : s.base.ths[i]? = some (.holding .read)) :
     ∀ v ∈ s.obs i, P v := by
-  obtain ⟨_, h2⟩ := C11_stable_under_read lockOf hok n r0 s h i hi
+  obtain ⟨_, h2⟩ := C11_stable_under_read lockOf M hok n r0 s h i hi
   intro v hv; rw [h2 v hv]; exact hP
 
 /-- the instance for the code as it is now: the generated table -/
-theorem C11_for_this_code (n : Nat) (r0 : σ) (s : CState σ) (h : CReach tableLockOf n r0 s) : ReadStable s :=
-  C11_stable_under_read tableLockOf C11_table_ok n r0 s h
+theorem C11_for_this_code (M : (σ → σ) → Prop) (n : Nat) (r0 : σ) (s : CState σ) (h : CReach tableLockOf M n r0 s) :
+    ReadStable s :=
+  C11_stable_under_read tableLockOf M C11_table_ok n r0 s h
 
 /-- the hypothesis is necessary: with a read lock on a mutating operation a reader can see the state change -/
 theorem C11_read_lock_is_not_enough :
-    ∃ (s : CState Nat), CReach (fun _ => Guard.read) 2 0 s ∧ ¬ ReadStable s := by
+    ∃ (s : CState Nat), CReach (fun _ => Guard.read) (fun _ => True) 2 0 s ∧ ¬ ReadStable s := by
   let lk : ROp → Guard := fun _ => Guard.read
-  have s0 : CReach lk 2 (0 : Nat) (cinit 2 0) := CReach.init
+  have s0 : CReach lk (fun _ => True) 2 (0 : Nat) (cinit 2 0) := CReach.init
   have s1 := CReach.step s0 (CStep.lock _ _ (Step.callFast (init 2) 0 .read rfl rfl))
   have s2 := CReach.step s1 (CStep.lock _ _ (Step.callFast _ 1 .read rfl rfl))
-  have s3 := CReach.step s2 (CStep.mutate _ 1 .subscribe rfl (fun x => x + 1) (by show bodyAllowed lk _ 1 .subscribe; unfold bodyAllowed; exact rfl))
+  have s3 := CReach.step s2 (CStep.mutate _ 1 .subscribe rfl (fun x => x + 1) trivial (by show bodyAllowed lk _ 1 .subscribe; unfold bodyAllowed; exact rfl))
   refine ⟨_, s3, ?_⟩
   intro hst
   have := (hst 0 rfl).1
   exact absurd this (by decide)
 
 /-! non-vacuity: a reachable state in which thread 0 delivers under the read lock while thread 1 waits to subscribe -/
-example : ∃ s : CState Nat, CReach tableLockOf 2 0 s ∧ s.base.ths[0]? = some (.holding .read) ∧
+example : ∃ s : CState Nat, CReach tableLockOf (fun _ => True) 2 0 s ∧ s.base.ths[0]? = some (.holding .read) ∧
     s.base.ths[1]? = some (.waiting .write 0 false) ∧ s.obs 0 = [0] := by
-  have s0 : CReach tableLockOf 2 (0 : Nat) (cinit 2 0) := CReach.init
+  have s0 : CReach tableLockOf (fun _ => True) 2 (0 : Nat) (cinit 2 0) := CReach.init
   have s1 := CReach.step s0 (CStep.lock _ _ (Step.callFast (init 2) 0 .read rfl rfl))
   have s2 := CReach.step s1 (CStep.lock _ _ (Step.callSlow _ 1 .write rfl rfl))
   have s3 := CReach.step s2 (CStep.observe _ 0 .notify rfl (by unfold bodyAllowed; exact rfl))
